@@ -40,6 +40,10 @@ def WState.gotDontHave (s : WState) (k : Nat) : WState :=
 def WState.gotBlock (s : WState) (k : Nat) : WState :=
   { s with req := modifyReq s.req k .gotBlock }
 
+/-- `wanted_again`: the CID entered the wantlist again; forget that this peer delivered it. -/
+def WState.wantedAgain (s : WState) (k : Nat) : WState :=
+  if s.req[k]? = some .gotBlock then { s with req := s.req.erase k } else s
+
 /-- The wire content of one wantlist message, entries grouped by kind, each group sorted. -/
 structure WlMsg where
   full : Bool
@@ -59,13 +63,12 @@ def fullNext (s : WState) (w : Wantlist) (k : Nat) : Option Req :=
     match s.req[k]? with
     | none => some .sentWantHave
     | some .gotHave => some .sentWantBlock
-    | some .gotBlock => some .sentWantHave      -- wanted again after the peer delivered it
     | some r => some r
   else none
 
 def fullIsWantHave (s : WState) (k : Nat) : Bool :=
   match s.req[k]? with
-  | none | some .sentWantHave | some .gotBlock => true
+  | none | some .sentWantHave => true
   | _ => false
 
 def fullIsWantBlock (s : WState) (k : Nat) : Bool :=
@@ -88,7 +91,6 @@ def updNext (s : WState) (w : Wantlist) (k : Nat) : Option Req :=
     match s.req[k]? with
     | none => some .sentWantHave
     | some .gotHave => some .sentWantBlock
-    | some .gotBlock => some .sentWantHave      -- wanted again after the peer delivered it
     | some r => some r
   else none
 
@@ -102,7 +104,7 @@ def updIsCancel (s : WState) (w : Wantlist) (k : Nat) : Bool :=
 def updIsWantHave (s : WState) (w : Wantlist) (k : Nat) : Bool :=
   k ∈ w.cids &&
   match s.req[k]? with
-  | none | some .gotBlock => true
+  | none => true
   | _ => false
 
 def updIsWantBlock (s : WState) (w : Wantlist) (k : Nat) : Bool :=
